@@ -2,6 +2,7 @@ package props
 
 import (
 	"fmt"
+	"math"
 
 	"pgregory.net/rapid"
 	"verif/harness/engine"
@@ -68,6 +69,17 @@ func runC06(ci interface{}) Result {
 				r.Inconclusive = true
 				vstat.Note("frame shows a bar the model does not have")
 				return r
+			}
+		}
+		// "in pop-completed mode finished bars rise above all running bars": a bar
+		// the model has on top with its pop priority must be there (no output is a
+		// terminal here, nothing is cut by a height)
+		if !mf.Ambiguous {
+			for _, b := range mf.Order {
+				if mf.Prio[b] < math.MinInt32+1<<20 && frames[k].Count(b) == 0 {
+					r.Err, r.Kind = fmt.Errorf("frame %d (bars top to bottom %v): bar %d finished in pop-completed mode and should have risen to the top of this frame, it is not shown", k, order, b), "popped-missing"
+					return r
+				}
 			}
 		}
 		if mf.Unordered {
